@@ -36,7 +36,7 @@ PLUMBING = {"IntoFuture::into_future", "Future::poll", "future::get_context", "P
             "FutureExt::poll_unpin", "StreamExt::poll_next_unpin", "hint::must_use", "fmt::format", "Arguments::new",
             "Argument::new_display", "Argument::new_debug", "Arguments::from_str", "IntoIterator::into_iter", "String::as_str",
             "Option::take", "Option::unwrap", "Option::is_some", "Option::is_none", "String::clone", "PathLike::get_path",
-            "Vec::new", "ToOwned::to_owned", "Borrow::borrow", "drop", "mem::drop", "Poll::map"}
+            "Vec::new", "ToOwned::to_owned", "Borrow::borrow", "drop", "mem::drop", "Poll::map", "VfsPath::as_str"}
 NAME_MAP = [
     (r"AsyncVfsPath", "VfsPath"), (r"AsyncFileSystem", "FileSystem"), (r"AsyncMemoryFS", "MemoryFS"),
     (r"AsyncPhysicalFS", "PhysicalFS"), (r"AsyncAltrootFS", "AltrootFS"), (r"AsyncOverlayFS", "OverlayFS"),
